@@ -100,7 +100,7 @@ class Ctx:
                 n += 1
                 self.violation(cls, site, text.split('\n')[1][:200] if '\n' in text else cls, r.scenario, r.flavour, meta, text)
         else:
-            for cls, site, text in runner.asan_reports(r.san):
+            for cls, site, text in runner.asan_reports(r.san + '\n' + (r.stderr or '')):
                 if cls in allow_classes:
                     continue
                 n += 1
@@ -126,7 +126,7 @@ class Ctx:
                     self.violation('deadlock', where, 'wait-for cycle at watchdog', r.scenario, r.flavour, meta)
                 else:
                     self.violation('hang', where, f'watchdog expired in {where} without a lock cycle', r.scenario, r.flavour, meta)
-        elif oc == 'crash':
+        elif oc == 'crash' and n == 0:
             last = [e for e in r.events if e.get('e') in ('call',)]
             where = last[-1].get('f', '?') if last else '?'
             n += 1
